@@ -44,9 +44,41 @@ fn stage(i: &Input, c: &mut Case) -> Result<(), String> {
     }
     note_cleared(c, &d);
     doc_labels(c, &d);
-    let all_ops = forest_ops(&d.forest);
+    let valid_ops = forest_ops(&d.forest);
+    // "all sequences of writer calls" includes calls that are rejected: 1-2 contract-failing calls are mixed in for a third of
+    // the sequences (they must return an error and are not part of the accepted tags)
+    let mut all_ops: Vec<(WOp, bool)> = valid_ops.iter().cloned().map(|o| (o, false)).collect();
+    if t.chance(1, 3) {
+        let mut chains: Vec<Vec<u64>> = Vec::new();
+        let mut open_ids: Vec<u64> = Vec::new();
+        for op in &valid_ops {
+            chains.push(open_ids.clone());
+            match op {
+                WOp::Write(Flat::Start(id), _) => open_ids.push(*id),
+                WOp::Write(Flat::End(_), _) => {
+                    open_ids.pop();
+                }
+                _ => {}
+            }
+        }
+        chains.push(open_ids);
+        let mut ins: Vec<(usize, WOp)> = Vec::new();
+        for _ in 0..1 + t.below(2) {
+            let at = t.below(valid_ops.len() + 1);
+            if let Some((op, _)) = super::c19::gen_failing(&mut t, d.spec.table(), &chains[at]) {
+                ins.push((at, op));
+            }
+        }
+        ins.sort_by_key(|x| std::cmp::Reverse(x.0));
+        for (at, op) in ins {
+            all_ops.insert(at, (op, true));
+            c.label("with_rejected_calls");
+        }
+    }
     let cut = if t.chance(1, 3) { all_ops.len() } else { t.below(all_ops.len() + 1) };
-    let ops = &all_ops[..cut];
+    let ops_f = &all_ops[..cut];
+    let ops_vec: Vec<WOp> = ops_f.iter().map(|x| x.0.clone()).collect();
+    let ops = &ops_vec[..];
     c.key(&(d.spec.table().elems.clone(), &format!("{:?}", ops)));
     c.sample_with(|| format!("spec {} | ops {} | then flush", spec_brief(d.spec.table()), render_ops(ops)));
 
@@ -63,6 +95,19 @@ fn stage(i: &Input, c: &mut Case) -> Result<(), String> {
         let mut pattern = false;
         for (k, op) in ops.iter().enumerate() {
             let outer_known_before = open.iter().position(|o| o.1);
+            if ops_f[k].1 {
+                // a call that must be rejected: no effect on the model, the destination must not change
+                match w.apply(op) {
+                    Ok(()) => return Err(format!("call #{} {} must fail by contract but was accepted\n  ops: {}", k, op.short(), render_ops(ops))),
+                    Err(WErr::Panic(p)) => return Err(format!("call #{} {} panicked: {}", k, op.short(), p)),
+                    Err(_) => {}
+                }
+                if w.dest() != &prev[..] {
+                    return Err(format!("the rejected call #{} {} changed what the destination holds\n  ops: {}", k, op.short(), render_ops(ops)));
+                }
+                snapshots.push(prev.clone());
+                continue;
+            }
             w.apply(op).map_err(|e| format!("call #{} {} of a valid sequence failed: {:?}\n  ops: {}", k, op.short(), e, render_ops(ops)))?;
             let dnow = w.dest().to_vec();
             if !dnow.starts_with(&prev) {
@@ -191,7 +236,7 @@ pub const STAGES: &[Stage] = &[Stage { name: "streaming", f: stage }];
 
 pub fn run(rc: &mut RunCtx) {
     rc.run_pt(STAGES[0], rc.pick(80_000, 1_500_000), (96, 640));
-    for l in ["complete_prefix_checked", "known_open_checked", "unknown_then_writes_then_known", "flush_with_open_masters"] {
+    for l in ["complete_prefix_checked", "known_open_checked", "unknown_then_writes_then_known", "flush_with_open_masters", "with_rejected_calls"] {
         rc.require_label("streaming", l, 20_000);
     }
     if !rc.quick() {
